@@ -4,11 +4,14 @@ package main
 // (variable bindings + current heap + old heap).
 
 import (
+	"crypto/sha256"
 	"fmt"
 	"go/token"
 	"go/types"
 	"math/big"
+	"regexp"
 	"sort"
+	"strconv"
 	"strings"
 )
 
@@ -813,6 +816,11 @@ func (e *Exec) trCall(x *SCall, env *SpecEnv) TV {
 	if sf.Recurse {
 		return e.recursiveSpecCall(sf, args, env)
 	}
+	if sf.Pred && len(args) > 0 && args[len(args)-1].T.Sort == SInt {
+		if tv, ok := e.predCall(sf, sfPkg, args, env); ok {
+			return tv
+		}
+	}
 	// inline expansion in the callee's own binding environment, same heaps
 	n := &SpecEnv{vars: map[string]TV{}, oldVars: map[string]TV{}, cur: env.cur, old: env.old, pkg: sf.Pkg, tpkg: sfPkg, depth: env.depth + 1, inOld: false}
 	for i, p := range sf.Params {
@@ -942,4 +950,62 @@ func rewriteSelfCalls(txt, name, hargs string) string {
 		}
 		txt = txt[:i] + "(" + name + txt[i+len(marker):j] + hargs + txt[j:]
 	}
+}
+
+
+var qvarRe = regexp.MustCompile(`![q]([0-9]+)`)
+var qvarFullRe = regexp.MustCompile(`[A-Za-z_][A-Za-z0-9_]*![q][0-9]+`)
+
+// predCall: a set-like predicate P(args, v) is given a name per distinct (args, heap) instance:
+//   (declare-fun P!h (Int) Bool)   (forall v. P!h(v) = body)  with trigger P!h(v)
+// so that quantified views  forall v :: P(a,v) <==> ...  have the natural triggers P!h(v).
+func (e *Exec) predCall(sf *SpecFunc, sfPkg *types.Package, args []TV, env *SpecEnv) (TV, bool) {
+	marker := e.nq
+	n := &SpecEnv{vars: map[string]TV{}, oldVars: map[string]TV{}, cur: env.cur, old: env.old, pkg: sf.Pkg, tpkg: sfPkg, depth: env.depth + 1}
+	last := len(sf.Params) - 1
+	for i, p := range sf.Params {
+		if i == last {
+			n.vars[p.Name] = TV{Term{"v!pred", SInt}, args[i].Ty}
+		} else {
+			n.vars[p.Name] = args[i]
+		}
+	}
+	// arguments must be closed terms (no variable bound by an enclosing quantifier)
+	for i, a := range args {
+		if i == last {
+			continue
+		}
+		if qvarRe.MatchString(a.T.S) {
+			return TV{}, false
+		}
+	}
+	body := e.tr(sf.Body, n)
+	for _, m := range qvarRe.FindAllStringSubmatch(body.T.S, -1) {
+		k, _ := strconv.Atoi(m[1])
+		if k <= marker {
+			return TV{}, false
+		}
+	}
+	if env.cur.probe != nil {
+		return TV{}, false
+	}
+	// alpha-normalise bound variable numbering so that equal instances get the same name
+	norm := map[string]string{}
+	canon := qvarFullRe.ReplaceAllStringFunc(body.T.S, func(m string) string {
+		if r, ok := norm[m]; ok {
+			return r
+		}
+		r := fmt.Sprintf("%s!n%d", m[:strings.IndexByte(m, '!')], len(norm))
+		norm[m] = r
+		return r
+	})
+	body.T.S = canon
+	h := sha256.Sum256([]byte(sf.Pkg + "." + sf.Name + "|" + canon))
+	name := fmt.Sprintf("P_%s!%x", sf.Name, h[:6])
+	if !e.declared["pred:"+name] {
+		e.mark("pred:" + name)
+		e.rawDecl("fun:"+name, fmt.Sprintf("(declare-fun %s (Int) Bool)", name))
+		e.globalAxiom(fmt.Sprintf("(assert (forall ((v!pred Int)) (! (= (%s v!pred) %s) :pattern ((%s v!pred)))))", name, body.T.S, name))
+	}
+	return TV{mk(SBool, name, args[last].T), specBoolT}, true
 }
